@@ -141,6 +141,18 @@ def run(ctx):
         ok = any(a[0] == "truth" and a[2] is True and a[1] == want for a in fs)
         res.check(ok, "C04-R4", "guard:%s" % (callee_name(c2) or "").split("::")[-1][:30], c2.get("loc"), "dominated by isValidPacket(cursor, remaining) on the current values",
                   "a message is consumed without isValidPacket having been evaluated on the current cursor and remaining size")
+    # the loop continues as long as a complete (possibly empty) message can remain
+    leaf = dec.cfg.branch_leaf(m.loop_block)
+    a = facts.atom_of(leaf, True)
+    hdr = fb.record(MH)["size"]
+    okc = False
+    if a[0] == "cmp":
+        for x, y, o in ((a[1], a[5], a[2]), (a[3], a[4], facts._flip_op(a[2]))):
+            c = const_value(y)
+            if x == sizev and c is not None:
+                okc = (o == ">" and c < hdr) or (o == ">=" and c <= hdr) or (o == "!=" and c == 0)
+    res.check(okc, "C04-R4", "loop:continues-while-a-message-fits", leaf.get("loc"), "loop condition holds whenever >= %d bytes remain" % hdr,
+              "the message loop stops (`%s`) although a complete message of %d bytes (empty payload) may remain: it is silently skipped" % (canon(leaf), hdr))
     # ---- R3 invalid marking + dispatch
     cre = fb.fn(PKT + "::create")
     nrows = 0
